@@ -41,6 +41,8 @@ WITNESS = {
   'tripcount': ('samlang-optimization', 'crates/samlang-optimization/src/loop_algebraic_optimization.rs', 'wx/witness/samlang_optimization_tripcount.rs', 'verif_witness_search'),
   # thorough-tier exploration without a unit of its own (registry: 'thorough_witness')
   'parser_terminates': ('samlang-parser', 'crates/samlang-parser/src/lib.rs', 'wx/witness/samlang_parser_lib.rs', 'verif_witness_search_parser_terminates'),
+  # quick-tier exploration without a unit of its own (registry: 'quick_witness')
+  'printmods': ('samlang-printer', 'crates/samlang-printer/src/lib.rs', 'wx/witness/samlang_printer_modules.rs', 'verif_witness_search_modules'),
   'parsetok': ('samlang-parser', 'crates/samlang-parser/src/lib.rs', 'wx/witness/samlang_parser_lib.rs', 'verif_witness_search_import_ranges'),
   'prodloc': ('samlang-parser', 'crates/samlang-parser/src/lib.rs', 'wx/witness/samlang_parser_lib.rs', 'verif_witness_search_type_parameter_ranges'),
   'depgraph': ('samlang-services', 'crates/samlang-services/src/dep_graph.rs', 'wx/witness/samlang_services_dep_graph.rs', 'verif_witness_search'),
@@ -56,7 +58,9 @@ def search(unit, repo, seed=0, timeout=900):
   try:
     for name in ('Cargo.toml', 'Cargo.lock'):
       shutil.copy2(os.path.join(repo, name), os.path.join(d, name))
-    for sub in ('crates', 'std'):
+    for sub in ('crates', 'std', 'tests'):
+      if not os.path.isdir(os.path.join(repo, sub)):
+        continue
       subprocess.run(['rsync', '-a', '--exclude', 'target', os.path.join(repo, sub), d], check=True)
     with open(os.path.join(d, rel), 'a') as f:
       f.write('\n#[cfg(test)] #[path = "%s"] mod verif_witness;\n' % os.path.join(VERIF, src))
